@@ -13,11 +13,11 @@ use std::sync::OnceLock;
 
 static DB: OnceLock<Db> = OnceLock::new();
 
-/// The property's bounds (DESIGN.md C11): <= 40 tokens, exponent notation of <= 3 digits, a power is an integer
+/// The property's bounds (DESIGN.md C11): <= 320 bytes (token soups <= 40 tokens, pumped strings up to 300 characters), exponent notation of <= 3 digits, a power is an integer
 /// literal of <= 2 digits and the product of all power magnitudes is <= 100, round's digits argument <= 2 digits.
 /// Inputs outside the bounds are not executed (outside them the power loop simply runs for minutes).
 fn in_bounds(s: &str) -> bool {
-    if s.len() > 200 {
+    if s.len() > 320 {
         return false;
     }
     let b = s.as_bytes();
@@ -101,7 +101,7 @@ fn in_bounds(s: &str) -> bool {
         if t.kind != anything::syntax::parser::Syntax::WHITESPACE {
             tokens += 1;
         }
-        if tokens > 40 {
+        if tokens > 300 {
             return false;
         }
     }
